@@ -34,7 +34,7 @@ def run(ctx):
                          "-pout", ctx.path("priwake.ndjson"), "-stress", ctx.path("stress.ndjson"),
                          "-pstress", ctx.path("pstress.ndjson"), "-seed", ctx.seed,
                          "-rand", ctx.q(60, 1000), "-prand", ctx.q(50, 600), "-nstress", ctx.q(4, 100),
-                         "-race", ctx.q(560, 2000), "-rounds", "enter,ctl,prod,enter,ctl,prod,take", "-prace", ctx.q(100, 1500), "-npstress", ctx.q(60, 600)],
+                         "-race", ctx.q(630, 2000), "-rounds", "enter,ctl,prod,enter,ctl,take,enter,ctl,prod", "-prace", ctx.q(100, 1500), "-npstress", ctx.q(60, 600)],
                 traces=[ctx.path("wake.ndjson"), ctx.path("priwake.ndjson"), ctx.path("stress.ndjson"),
                         ctx.path("pstress.ndjson")])
     wake = _load(ctx, "wake.ndjson")
